@@ -60,6 +60,9 @@ def oracle(log, N, fence):
         elif t[0] == 'n':
             its += 1
             live = [l for l in live if its - l[2] < N]
+            kv = dict(x.split('=') for x in t[3:] if '=' in x)
+            if 'cap' in kv and kv['cap'] != kv.get('region'):
+                msgs.append('switching to iteration %s did not make its region available again: capacity_left is %s of %s bytes' % (t[2], kv['cap'], kv.get('region')))
         elif t[0] == 'corrupt':
             msgs.append('content of a live allocation was modified: ' + ln)
         elif t[0] == 'nofill':
